@@ -65,7 +65,7 @@ def run_verus(path, extra=()):
     import hashlib
     with open(path) as f:
         text = f.read()
-    key = hashlib.sha256((text + '\0' + ' '.join(extra) + '\0' + verus_version()).encode()).hexdigest()
+    key = hashlib.sha256((text + '\0' + ' '.join(extra) + '\0' + verus_version() + '\0v2').encode()).hexdigest()
     cdir = os.path.join(BUILD, 'cache')
     cpath = os.path.join(cdir, key + '.json')
     if os.environ.get('VERIF_NOCACHE') != '1' and os.path.exists(cpath):
@@ -92,7 +92,7 @@ def run_verus(path, extra=()):
 
 def run_verus_uncached(path, extra=()):
     cmd = ['verus', path, '--triggers-mode', 'silent', '--output-json', '--time', '--error-format=json',
-           '--num-threads', '16', '--multiple-errors', '6'] + (list(extra) if '--rlimit' in extra else ['--rlimit', '30'] + list(extra))
+           '--num-threads', '16'] + ([] if '--multiple-errors' in extra else ['--multiple-errors', '6']) + (list(extra) if '--rlimit' in extra else ['--rlimit', '30'] + list(extra))
     t0 = time.time()
     p = subprocess.run(cmd, stdout=subprocess.PIPE, stderr=subprocess.PIPE, text=True, cwd=BUILD)
     wall = time.time() - t0
@@ -173,24 +173,28 @@ class UnitRun:
                 return fn, dflt
         return None, None
 
+    def write_unit(self, text, tag=''):
+        import hashlib
+        h8 = hashlib.sha256(text.encode()).hexdigest()[:10]
+        out = os.path.join(BUILD, '%s%s-%s.rs' % (self.label.replace('+', '_'), tag, h8))
+        if not os.path.exists(out):
+            tmp = out + '.%d.tmp' % os.getpid()
+            with open(tmp, 'w') as f:
+                f.write(text)
+            os.replace(tmp, out)
+        try:
+            latest = os.path.join(BUILD, self.label.replace('+', '_') + tag + '.rs')   # convenience copy for humans
+            with open(latest, 'w') as f:
+                f.write(text)
+        except Exception:
+            pass
+        return out
+
     def run(self):
         g = Generator(REPO, benchmark=self.benchmark)
         for attempt in range(8):
-            self.gen = g.generate(self.tpath, probe=self.probe, quarantine=set(self.quarantine))
-            import hashlib
-            h8 = hashlib.sha256(self.gen['text'].encode()).hexdigest()[:10]
-            out = os.path.join(BUILD, '%s-%s.rs' % (self.label.replace('+', '_'), h8))
-            if not os.path.exists(out):
-                tmp = out + '.%d.tmp' % os.getpid()
-                with open(tmp, 'w') as f:
-                    f.write(self.gen['text'])
-                os.replace(tmp, out)
-            try:
-                latest = os.path.join(BUILD, self.label.replace('+', '_') + '.rs')   # convenience copy for humans
-                with open(latest, 'w') as f:
-                    f.write(self.gen['text'])
-            except Exception:
-                pass
+            self.gen = g.generate(self.tpath, probe=False, quarantine=set(self.quarantine))
+            out = self.write_unit(self.gen['text'])
             self.path = out
             for (fn, msg) in self.gen['errors']:
                 self.quarantine.setdefault(fn, 'extractor: ' + msg)
@@ -205,24 +209,86 @@ class UnitRun:
                         if sp.get('is_primary'):
                             line = sp['line_start']
                     fn, _ = self.fn_at(line) if line else (None, None)
-                    twin = self.twin_at(line) if line else None
                     if fn and fn not in self.quarantine:
                         self.quarantine[fn] = 'verus: ' + d['message'][:200]
                         newq = True
-                    elif twin and ('twin:' + twin) not in self.quarantine:
-                        self.quarantine['twin:' + twin] = 'verus (probe twin): ' + d['message'][:200]
-                        newq = True
-                    elif not fn and not twin:
+                    elif not fn:
                         self.compile_errors.append('%s (line %s)' % (d['message'][:300], line))
             if self.compile_errors or not newq:
                 break
-        self.attribute()
-        if self.undecided and '--rlimit' not in self.extra and any('limit' in u['message'] for u in self.undecided):
+        if '--rlimit' not in self.extra and any(classify(d) == 'undecided' for d in self.vr['diags']):
             # a resource-limit hit is not an answer: retry once with a much larger limit
             self.extra = list(self.extra) + ['--rlimit', '200']
             self.vr = run_verus(self.path, self.extra)
-            self.attribute()
+        self.attribute()
         return self
+
+    def run_probe(self):
+        """Vacuity probe: twins of every contracted function (originals as external_body with their
+        contracts) - `ensures false` twin and one twin per statement point; each must be refuted."""
+        self.probe_hit = set()
+        self.probe_points_hit = set()
+        self.probe_errors = []
+        if not self.probe:
+            return self
+        g = Generator(REPO, benchmark=self.benchmark)
+        self.pgen = g.generate(self.tpath, probe=True, quarantine=set(self.quarantine), originals_external=True)
+        out = self.write_unit(self.pgen['text'], tag='-probe')
+        self.pvr = run_verus(out, ['--multiple-errors', '0'])
+        # A twin is VACUOUS iff the verifier PROVED it (`false` derivable).  A twin that is refuted
+        # (error reported) or on which the solver gives up (rlimit) is not vacuous.
+        self.probe_proved = set()
+        self.probe_seen = set()
+        js = self.pvr.get('json') or {}
+        try:
+            for m in js['times-ms']['smt']['smt-run-module-times']:
+                for f in m.get('function-breakdown', []):
+                    name = f['function']
+                    if '__probe' in name:
+                        short = '::'.join(name.split('::')[-2:])
+                        self.probe_seen.add(short)
+                        if f.get('success'):
+                            self.probe_proved.add(short)
+        except Exception:
+            self.probe_errors.append('no function breakdown in the probe run')
+        text = self.pgen['text']
+        owner = clause_line_map(text)
+        lines = text.split('\n')
+        for d in self.pvr['diags']:
+            k = classify(d)
+            if k == 'ignore':
+                continue
+            spans = d.get('spans', [])
+            all_lines = []
+            for s_ in spans:
+                all_lines.extend(range(s_['line_start'], s_['line_end'] + 1))
+            if k == 'compile':
+                self.probe_errors.append(d['message'][:200])
+                continue
+            for l in all_lines:
+                c = owner.get(l)
+                if not c:
+                    continue
+                if c.startswith('PROBE:'):
+                    self.probe_points_hit.add(c)
+                elif c.endswith('#probe'):
+                    self.probe_hit.add(c[:-6])
+                elif c == 'PROBE-noreturn':
+                    tw = self.twin_at_text(lines, l)
+                    if tw:
+                        self.probe_hit.add(tw)
+        return self
+
+    @staticmethod
+    def twin_at_text(lines, line):
+        for n in range(line - 1, -1, -1):
+            s = lines[n] if n < len(lines) else ''
+            m = re.match(r'^/\* vacuity probe twin of (.*) \*/$', s)
+            if m:
+                return m.group(1)
+            if s.startswith('/* extracted') or s.startswith('/* end twin'):
+                return None
+        return None
 
     def twin_at(self, line):
         lines = self.gen['text'].split('\n')
@@ -243,7 +309,6 @@ class UnitRun:
         lines = text.split('\n')
         self.failures = []
         self.undecided = []
-        self.probe_hit = set()
         for d in self.vr['diags']:
             k = classify(d)
             if k == 'ignore' or k == 'compile':
@@ -262,6 +327,9 @@ class UnitRun:
                     twin = tw
             if twin is not None:
                 cids = [owner.get(l) for l in all_lines if owner.get(l)]
+                for c in cids:
+                    if c.startswith('PROBE:'):
+                        self.probe_points_hit.add(c)
                 if any(c.endswith('#probe') or c == 'PROBE-noreturn' for c in cids) or \
                         any('PROBE-noreturn' in lines[l - 1] for l in all_lines if l - 1 < len(lines)):
                     self.probe_hit.add(twin)
